@@ -115,6 +115,7 @@ TDeps(D, t)    == IF t \in Leaf THEN Locs(D[t])  ELSE TaskSpec[t].deps      \* d
 TTargets(D, t) == IF t \in Leaf THEN Chain(t)    ELSE TaskSpec[t].targets
 TReads(D, t)   == IF t \in Leaf THEN Reads(D[t]) ELSE TaskSpec[t].deps
 TWrites(t)     == IF t \in Leaf THEN {t}         ELSE TaskSpec[t].targets
+WrittenBy(S)   == UNION {TWrites(t) : t \in S}
 
 Reported(D, u, t) == TTargets(D, u) \cap TDeps(D, t) # {}                    \* what rtasks encodes
 Produces(D, u, t) == \E w \in TWrites(u), p \in TReads(D, t) : Comparable(w, p)   \* true data flow
@@ -212,7 +213,7 @@ Update(a, l, D1, m1) ==
      /\ mem' = s1.m
      /\ kprev' = s1.kp
      /\ defs' = D1
-     /\ ghost' = {x \in Leaf : x \in ghost /\ x # l}
+     /\ ghost' = {x \in Leaf : x \in ghost /\ x # l /\ x \notin WrittenBy(T)}        \* every triggered task ran: its targets are fresh
      /\ UNCHANGED <<reg, frozen>>
      /\ last' = TLCEval(a @@ [exc |-> "none", trig |-> AsSeq(T), prec |-> AsSeq(Prec(D1, T)), cyc |-> StructCyclic(D1, T),
                               idx |-> Idx(D1, reg)])
@@ -254,7 +255,8 @@ Unregister(t) ==
   /\ IF frozen THEN Refuse(a)
      ELSE /\ defs' = IF t \in Leaf THEN [defs EXCEPT ![t] = NoDef] ELSE defs
           /\ reg' = reg \ {t}
-          /\ UNCHANGED <<mem, kprev, frozen, ghost>>
+          /\ ghost' = {x \in Leaf : x \in ghost /\ x \notin TWrites(t)}
+          /\ UNCHANGED <<mem, kprev, frozen>>
           /\ last' = TLCEval(a @@ [exc |-> "none", idx |-> Idx(defs', reg')])
 
 (* manager.register(FunctionTask / LinearKnob); the knob constructor samples its source *)
@@ -292,7 +294,9 @@ FaultUpdate(a, l, D1, m1) ==
     IN /\ mem' = s1.m
        /\ kprev' = s1.kp
        /\ defs' = D1
-       /\ ghost' = {x \in Leaf : x \in ghost \/ x = l}
+       /\ ghost' = {x \in Leaf : \/ x \in ghost                                          \* the targets of the tasks that did not run are stale
+                                  \/ x \in WrittenBy({q[i] : i \in (IF k = 0 THEN 1 ELSE k)..Len(q)})
+                                  \/ (k = 0 /\ x = l /\ D1[l] # NoDef)}                    \* a new definition whose first evaluation was not stored
        /\ UNCHANGED <<reg, frozen>>
        /\ last' = TLCEval(a @@ [exc |-> "Fault", k |-> k, ran |-> SubSeq(q, 1, k - 1),
                                 failing |-> IF k = 0 THEN "write" ELSE q[k],
@@ -335,7 +339,7 @@ Transfer(kind) ==
             /\ defs' = D1
             /\ reg' = {}
             /\ mem' = [mem EXCEPT ![KeepLoc] = Eval(KeepExpr, mem)]
-            /\ ghost' = {x \in Leaf : x \in ghost \/ x = KeepLoc}
+            /\ ghost' = {x \in Leaf : x \in ghost \/ x \in WrittenBy(Triggered(D1, {}, KeepLoc))}
             /\ UNCHANGED <<kprev, frozen>>
             /\ last' = a @@ [exc |-> "none", keeploc |-> KeepLoc, keepexpr |-> KeepExpr]
 
@@ -362,7 +366,7 @@ GenFun(args, vals) ==
      /\ \A i \in 1..n : defs[args[i]] = NoDef
      /\ Assert(batch.m = seqr.m, <<"gen_fun: batch and sequential formulations differ", args, vals>>)
      /\ mem' = seqr.m
-     /\ ghost' = {x \in Leaf : x \in ghost /\ \A i \in 1..n : args[i] # x}
+     /\ ghost' = {x \in Leaf : x \in ghost /\ x \notin WrittenBy(T) /\ \A i \in 1..n : args[i] # x}
      /\ UNCHANGED <<defs, reg, kprev, frozen>>
      /\ last' = [a |-> "GenFun", args |-> args, vals |-> vals, exc |-> "none", trig |-> AsSeq(T), prec |-> AsSeq(Prec(defs, T)),
                  cyc |-> StructCyclic(defs, T)]
@@ -402,8 +406,10 @@ TypeOK == /\ mem \in [Leaf -> Int]
           /\ frozen \in BOOLEAN
           /\ ghost \subseteq Leaf
 
-(* tasks possibly stale because an update that should have refreshed them was cut short *)
-Dirty == UNION {Triggered(defs, reg, l) : l \in ghost} \cup {l \in ghost : defs[l] # NoDef}
+(* ghost: the locations that may not hold the value of their definition because the task writing them was scheduled by an update that was  *)
+(* cut short (or was registered without running: copy_keep) and has not run since.  The push model keeps no dirty flags: such a location    *)
+(* stays stale until an update triggers its task again, whatever happens to the definitions in between.                                   *)
+Dirty == {l \in ghost : defs[l] # NoDef}
 
 (* C01: every expression-defined location holds the value of its definition on current contents *)
 C01Inv == \A l \in Leaf : (defs[l] # NoDef /\ l \notin Dirty) => mem[l] = Eval(defs[l], mem)
@@ -420,7 +426,7 @@ C17Prop == [][frozen /\ frozen' => (defs' = defs /\ reg' = reg)]_vars
 C17Refuse == [][(frozen /\ last'.a \in {"SetExpr", "Unregister", "RegisterTask"}) => (last'.exc = "ValueError" /\ State' = State)]_vars
 
 (* C18: a fault leaves the definitions as the definitional phase made them, and marks its origin *)
-C18Prop == [][last'.exc = "Fault" => (reg' = reg /\ frozen' = frozen /\ last'.l \in ghost')]_vars
+C18Prop == [][last'.exc = "Fault" => (reg' = reg /\ frozen' = frozen /\ ghost \subseteq ghost')]_vars
 
 (* C02: the triggered set is closed under reported edges, contains every direct dependant, nothing else *)
 C02Prop == [][("trig" \in DOMAIN last' /\ "l" \in DOMAIN last') =>
